@@ -75,6 +75,7 @@ PROBES = [
      ["@rpid-android:%63o.uk|-", "@rpid-android:login.%63o.uk|%63o.uk", "@rpid-android:example.com%2E|-",
       "@rpid-android:192.168.0.1|-", "@rpid-android:192.168.0.1|0.1", "@rpid-android:app.co.uk:443|co.uk:443", "@rpid-android:user@co.uk|-",
       "@rpid-android:app.example.com/|example.com/", "@rpid-android:app.example.com|example.com", "@rpid-android:evilexample.com|example.com",
+      "@rpid-android:www.example.com|attacker.io", "@rpid-android:www.example.com|www.attacker.io", "https://www.example.com|attacker.io|0",
       "@rpid-android:attacker.net/.example.com|example.com", "@rpid-android:user:secret@login.example.com|example.com", "@rpid-android:my app.example.com|example.com",
       "https://evil-example.com|example.com|0", "https://a_example.com|example.com|0", "@rpid-android:app-example.com|example.com",
       "https://evilexample.com|example.com|0", "https://evillocalhost|localhost|1", "https://aexample.co.uk|example.co.uk|0",
@@ -132,7 +133,7 @@ PROBES.insert(0, (re.compile(r"^hid::(Message::extend|ChannelHandler::handle_pac
 PROBES.insert(0, (re.compile(r"^enc::RegisterResponse::encode::"), "u2f-register-response", ["40|8|8", "0|5|7", "255|3|70", "16|0|8", "1|300|72"]))
 # a message built from its public fields: above the maximum, length field and payload disagreeing
 PROBES.insert(0, (re.compile(r"^hid::Message::send::"), "hid-send-fields", ["7610|7610", "20|10", "10|20", "10|100", "100|10", "7727|7727", "70000|70000", "58|57"]))
-PROBES.insert(0, (re.compile(r"^cosek::"), "cose-der", ["32,32", "31,32", "32,33", "0,32", "32,0", "64,64"]))
+PROBES.insert(0, (re.compile(r"^cosek::"), "cose-der", ["32,32", "31,32", "32,33", "0,32", "32,0", "64,64", "31,33", "33,31", "0,64", "64,0", "1,63"]))
 # a getInfo response whose transports list (key 0x09) declares 2^26 elements and ends there: 7 bytes of input
 PROBES.insert(0, (re.compile(r"^serdecap::(PossiblyUnknown|IgnoreUnknown)"), "cbor-get-info-response", ["a1099a04000000"]))
 PROBES.append((re.compile(r"^org::Origin::fmt::ensures#web"), "origin-text",
